@@ -73,26 +73,29 @@ def repo_hash():
     return h.hexdigest()[:16]
 
 
-def build_libcoap(flavor="asan", extra_defs=""):
+def build_libcoap(flavor="asan", extra_defs="", cmake_args=(), tag=""):
     """Configure + build libcoap-3.a from /repo's working tree through the
-    repository's own CMake (hooks guard on).  Cached by content hash."""
+    repository's own CMake (hooks guard on).  Cached by content hash.
+    `cmake_args` (extra -D options for the configure step) and `tag` (a separate cache slot, so that two
+    configurations of the same flavor do not evict each other) are optional."""
     flags = FLAVORS[flavor] + " -D%s=1 " % GUARD + extra_defs
-    key = hashlib.sha256((repo_hash() + flags).encode()).hexdigest()[:12]
-    bdir = os.path.join(WORK, "build-%s-%s" % (flavor, key))
+    name = flavor + ("_" + tag if tag else "")
+    key = hashlib.sha256((repo_hash() + flags + "".join(cmake_args)).encode()).hexdigest()[:12]
+    bdir = os.path.join(WORK, "build-%s-%s" % (name, key))
     lib = os.path.join(bdir, "libcoap-3.a")
-    with Lock("libcoap-" + flavor):
+    with Lock("libcoap-" + name):
         if os.path.exists(lib) and os.path.exists(os.path.join(bdir, ".ok")):
             os.utime(bdir)
             return bdir
         # keep at most two trees per flavor
-        olds = sorted((d for d in os.listdir(WORK) if d.startswith("build-%s-" % flavor)),
+        olds = sorted((d for d in os.listdir(WORK) if d.startswith("build-%s-" % name)),
                       key=lambda d: os.path.getmtime(os.path.join(WORK, d)))
         for d in olds[:-1]:
             shutil.rmtree(os.path.join(WORK, d), ignore_errors=True)
         shutil.rmtree(bdir, ignore_errors=True)
         os.makedirs(bdir)
         r = sh(["cmake", "-G", "Ninja", "-S", REPO, "-B", bdir, "-DENABLE_TESTS=OFF", "-DENABLE_EXAMPLES=OFF",
-                "-DENABLE_DOCS=OFF", "-DCMAKE_BUILD_TYPE=RelWithDebInfo", "-DCMAKE_C_FLAGS=" + flags])
+                "-DENABLE_DOCS=OFF", "-DCMAKE_BUILD_TYPE=RelWithDebInfo", "-DCMAKE_C_FLAGS=" + flags] + list(cmake_args))
         if r.returncode != 0:
             raise BuildError("cmake configure failed:\n" + r.stdout[-4000:])
         r = sh(["ninja", "-C", bdir, "coap-3"])
